@@ -45,6 +45,9 @@ def main(argv=None):
     try:
         repo = Repo()
         rep = Report(a.pid, a.tier, repo)
+        if getattr(repo, 'renamed_attributes', None):
+            rep.assumptions.append('attribute names bound to the vocabulary of the rules (order of first assignment, spec.ATTR_ORDER): ' +
+                                   ', '.join('%s is %s' % (n_, o_) for n_, o_ in sorted(repo.renamed_attributes.items())))
         mod.run(rep, repo, a.tier)
         try:
             signal.alarm(0)
